@@ -84,6 +84,12 @@ fn tuple(items: Vec<J>) -> J {
 fn none() -> J {
     json!({"k": "none"})
 }
+fn tname(n: &str) -> J {
+    json!({"k": "tname", "n": n})
+}
+fn param_ty(n: &str, kind: &str, d: J, ty: J) -> J {
+    json!({"n": n, "ncp": str_to_cp(n), "kind": kind, "d": d, "ty": ty})
+}
 fn emit(e: J) -> J {
     json!({"k": "expr", "e": callf("emit", vec![e])})
 }
@@ -1345,8 +1351,9 @@ impl<'a> Gen<'a> {
                 _ => json!({"k": "index", "e": {"k": "dict", "keys": [strlit("a")], "vals": [int(1)]}, "i": strlit("zz")}),
             }
         };
-        match self.rng.below(20) {
+        match self.rng.below(21) {
             12 | 13 | 14 => self.inline_order_stmt(),
+            19 => self.annotated_stmt(),
             15 => self.assigned_shapes_stmt(),
             16 => self.bool_simplify_stmt(),
             17 => self.known_method_stmt(),
@@ -1522,6 +1529,75 @@ impl<'a> Gen<'a> {
                     let h = self.fresh("v");
                     out.push(assign(&h, json!({"k": "list", "items": [var(&f)]})));
                     call(json!({"k": "index", "e": var(&h), "i": int(0)}), vec![x, y])
+                }
+            };
+            out.push(emit(c));
+        }
+        out
+    }
+
+    /// a type for annotations, with a value that belongs to it and one that does not
+    fn ann_type(&mut self) -> (J, J, J) {
+        let li = |xs: Vec<J>| json!({"k": "list", "items": xs});
+        match self.rng.below(12) {
+            0 => (tname("int"), int(self.small_int()), json!({"k": "bool", "b": true})),
+            1 => (tname("str"), strlit("s"), int(1)),
+            2 => (tname("bool"), json!({"k": "bool", "b": false}), int(0)),
+            3 => (tname("None"), none(), int(0)),
+            4 => (tname("list"), li(vec![strlit("a"), int(1)]), tuple(vec![int(1)])),
+            5 => (json!({"k": "tlist", "a": tname("int")}), li(vec![int(1), int(2)]), li(vec![int(1), strlit("x")])),
+            6 => (json!({"k": "tdict", "a": tname("str"), "b": tname("int")}), json!({"k": "dict", "keys": [strlit("k")], "vals": [int(1)]}),
+                  json!({"k": "dict", "keys": [strlit("k")], "vals": [strlit("v")]})),
+            7 => (json!({"k": "ttupleof", "a": tname("int")}), tuple(vec![int(1), int(2)]), tuple(vec![int(1), none()])),
+            8 => (json!({"k": "tunion", "items": [tname("int"), tname("None")]}), none(), strlit("")),
+            9 => (tname("any"), li(vec![]), li(vec![])),       // nothing mismatches Any
+            10 => (tname("callable"), var("len"), int(3)),
+            _ => (tname("iterable"), tuple(vec![]), strlit("abc")),
+        }
+    }
+
+    /// functions with run-time checked annotations (parameters, defaults, return type), in the shapes
+    /// the inliner accepts and in general ones, called with values inside and outside the types
+    fn annotated_stmt(&mut self) -> Vec<J> {
+        let mut out = Vec::new();
+        self.tracer(&mut out);
+        let f = self.fresh("f");
+        let a = self.fresh("p");
+        let b = self.fresh("p");
+        let (ta, ga, ba) = self.ann_type();
+        let (tb, gb, bb) = self.ann_type();
+        let (tr_, gr, br) = self.ann_type();
+        // the default of b: inside its type, or (rarely) outside: the def itself must fail
+        let dflt = if self.rng.chance(1, 8) { bb.clone() } else { gb.clone() };
+        let ret_ok = self.rng.chance(2, 3);
+        let body = match self.rng.below(3) {
+            0 => vec![json!({"k": "return", "e": if ret_ok { gr.clone() } else { br.clone() }})],
+            1 => vec![json!({"k": "if", "c": var(&a), "then": [{"k": "return", "e": gr.clone()}], "else": []}),
+                      json!({"k": "return", "e": if ret_ok { gr.clone() } else { br.clone() }})],
+            _ => vec![emit(tuple(vec![var(&a), var(&b)])), json!({"k": "return", "e": if ret_ok { gr.clone() } else { br.clone() }})],
+        };
+        let kind_b = if self.rng.chance(1, 3) { "kwonly" } else { "normal" };
+        let with_ret = self.rng.chance(2, 3);
+        let mut d = json!({"k": "def", "name": f, "params": [param_ty(&a, "normal", absent(), ta), param_ty(&b, kind_b, dflt, tb)], "body": body});
+        if with_ret {
+            d["ret"] = tr_;
+        }
+        out.push(d);
+        for _ in 0..(1 + self.rng.below(3)) {
+            let x = callf("tr", vec![if self.rng.chance(3, 4) { ga.clone() } else { ba.clone() }]);
+            let y = callf("tr", vec![if self.rng.chance(3, 4) { gb.clone() } else { bb.clone() }]);
+            let c = match self.rng.below(4) {
+                0 => call(var(&f), vec![x]),
+                1 if kind_b == "normal" => call(var(&f), vec![x, y]),
+                2 => {
+                    let mut c = call(var(&f), vec![]);
+                    c["named"] = json!([named(&b, y), named(&a, x)]);
+                    c
+                }
+                _ => {
+                    let mut c = call(var(&f), vec![x]);
+                    c["named"] = json!([named(&b, y)]);
+                    c
                 }
             };
             out.push(emit(c));
